@@ -59,6 +59,10 @@ pub struct S07 {
     /// scale: seeks to positions up to 2^62 bits over the sparse backends
     #[serde(default)]
     pub huge: Option<crate::giant::HugeSeek>,
+    /// the reader is created over a backend that was moved to this word (by the backend's
+    /// own set_word_pos) beforehand
+    #[serde(default)]
+    pub start_words: usize,
 }
 
 pub struct C07;
@@ -98,6 +102,7 @@ impl Family for C07 {
                 lockstep: false,
                 align_tail: false,
                 huge: Some(g),
+                start_words: 0,
             };
         }
         let n = rng.usize_range(1, 12);
@@ -171,6 +176,7 @@ impl Family for C07 {
             lockstep: rng.chance(1, 4),
             align_tail,
             huge: None,
+            start_words: if rng.chance(1, 5) { rng.usize_range(1, 3) } else { 0 },
         }
     }
 
@@ -202,7 +208,7 @@ impl Family for C07 {
             elems = &elems_store;
             ctx.probe("c07.no_slack_after_last_codeword");
         }
-        let mut sim = RSim::new("C07", s.e, s.kind, &s.backend, &w.bytes);
+        let mut sim = with_preseek(s.start_words, || RSim::new("C07", s.e, s.kind, &s.backend, &w.bytes));
         ctx.probe_if(sim.pos > 0, "c07.reader_created_at_nonzero_offset");
         let wb = s.kind.word_bits();
         let len = sim.data_bits;
